@@ -3,6 +3,7 @@ package main
 import (
 	"fmt"
 	"math/rand"
+	"strings"
 
 	"github.com/ldclabs/cose/key"
 )
@@ -42,6 +43,23 @@ func execWrongType(op string, a []string) string {
 			return "rejected"
 		}
 		return "accepted"
+	case "wire.badpayload":
+		// wire.badpayload <kind> <mode> <ext> <msg> | <key>: a genuine message (valid signature / tag / ciphertext) whose
+		// payload is CBOR the strict decoder must refuse (duplicate keys, indefinite lengths, trailing octets) is consumed
+		// with a typed payload destination (CoseMap, or a plain Go map in mode gomap)
+		f := splitAll(a)
+		h := f[0]
+		args := &msgArgs{kind: h[0], mode: h[1], ext: unhxOpt(h[2]), data: unhx(h[3]), fields: f[1:]}
+		var ans string
+		if args.mode == "gomap" {
+			ans = consumeT(goMapCodec, args)
+		} else {
+			ans = consumeT(typedCodec, args)
+		}
+		if strings.HasPrefix(ans, "ok") {
+			return "accepted " + ans
+		}
+		return "rejected"
 	case "cbor.encdup":
 		v, _ := parseVal(a, 0)
 		out, err := key.MarshalCBOR(v)
@@ -128,6 +146,42 @@ func genWrongType(r *rand.Rand, n int) []string {
 		}
 		if i%10 == 0 {
 			out = append(out, "cbor.encdup { int:1 int:7 i64:1 int:8 }", "cbor.encdup { u8:3 t:61 i16:3 t:62 int:3 t:63 }")
+		}
+		if i%4 == 0 { // one label under two Go integer kinds (any pair), small or beyond 32 bits
+			kinds := []string{"int", "i8", "i16", "i32", "i64", "u", "u8", "u16", "u32", "u64"}
+			v := []int64{4, 24, 100, 1, 0, 1 << 40, 1<<31 + 5, 127}[r.Intn(8)]
+			var ok []string
+			for _, k := range kinds {
+				if (k == "i8" || k == "u8") && v > 127 || (k == "i16" || k == "u16") && v > 32767 || (k == "i32" || k == "u32" || k == "int") && v > 1<<31-1 && k != "int" {
+					continue
+				}
+				ok = append(ok, k)
+			}
+			a, b := ok[r.Intn(len(ok))], ok[r.Intn(len(ok))]
+			if a != b {
+				out = append(out, fmt.Sprintf("cbor.encdup { %s:%d t:61 %s:%d t:62 }", a, v, b, v))
+			}
+		}
+		if i%3 == 0 { // a valid message around a payload that is not strict CBOR, consumed into typed destinations
+			bad := [][]byte{
+				{0xa2, 0x01, 0x61, 0x61, 0x01, 0x61, 0x62},       // duplicate key 1
+				{0xa2, 0x01, 0x61, 0x61, 0x18, 0x01, 0x61, 0x62}, // 1 and the non-shortest 1
+				{0xbf, 0x01, 0x61, 0x61, 0xff},                   // indefinite-length map
+				{0xa1, 0x01, 0x7f, 0x61, 0x61, 0xff},             // indefinite-length text
+				{0xa1, 0x01, 0x61, 0x61, 0x00},                   // trailing octet
+				{0xa1, 0x01},                                     // truncated
+				{0xa2, 0x61, 0x61, 0x01, 0x61, 0x61, 0x02},       // duplicate text key
+			}[r.Intn(7)]
+			algs := algsForKind(kind)
+			k := genMsgKey(r, algs[r.Intn(len(algs))], false)
+			for len(k.kid) == 0 && kind == "sign" {
+				k = genMsgKey(r, algs[r.Intn(len(algs))], false)
+			}
+			q := buildProduce(r, kind, "rawmsg", hx(bad), "nil", "nil", extTok(r), []msgKey{k})
+			if q.ok && q.data != nil {
+				mode := []string{"typed", "gomap"}[r.Intn(2)]
+				out = append(out, fmt.Sprintf("wire.badpayload %s %s %s %s | %s", kind, mode, q.ext, hx(q.data), strings.Join(q.pubKeys(), " | ")))
+			}
 		}
 	}
 	return out
